@@ -1,4 +1,5 @@
-(* Extraction of the C04 models: checked-start Ref run, printer, Mech store paths, Spec conversion. *)
+(* Extraction of the C04 Mech model (store paths of /repo) and of the Spec conversion. Whole programs are run by
+   the shared bin/lang_model. *)
 From Coq Require Import Extraction ExtrOcamlBasic ExtrOcamlString ZArith.
 From Cb Require Import Lang.Syntax Lang.Sem Lang.Print C04.Gen_RangeTable C04.Model.
-Extraction "C04/c04_model.ml" run_c04 run print_program render dec_Z mech_store mech_elem1_update coerce narrow_read looks_like_pointer range gen_range Z.add Z.mul Z.opp Z.of_nat Z.of_N N.of_nat.
+Extraction "C04/c04_model.ml" dec_Z mech_store mech_elem1_update coerce narrow_read looks_like_pointer range gen_range Z.add Z.mul Z.opp Z.of_nat.
